@@ -438,6 +438,7 @@ def oracle(case, res):
     freed = False
     rel = None
     ent = ""                    # set once a with-block has been entered after the construction instant
+    span = with_span(case)
     ops = case["ops"]
     for i, o in enumerate(ops):
         if i >= len(res["snaps"]):
@@ -447,7 +448,8 @@ def oracle(case, res):
             # entering the with-block -- at the construction instant or any time later -- is no clause of its own:
             # the grid below stays t0 + k*P with t0 the instant of CONSTRUCTION.  Only the bookkeeping is stated here.
             if cur[0] > t0 and not ent:
-                ent = " (the object was built at %d, its with-block entered at %d, %d us later)" % (t0, cur[0], cur[0] - t0)
+                ent = " (the object was built at %d, %s at %d, %d us later)" % (
+                    t0, "its with-block entered" if (span and i == span[0]) else "__enter__() called on it", cur[0], cur[0] - t0)
             if not freed and cur[1] != t0 + (k + 1) * n:
                 out.append(("alarm-off-grid", "op %d: after __enter__ at %d the alarm for wait %d is %s, the grid point t0+%d*P is %d (t0=%d, P=%d us)"
                             % (i, cur[0], k + 1, cur[1], k + 1, t0 + (k + 1) * n, t0, n)))
@@ -839,21 +841,29 @@ def shrink(sim, cls, case, fp):
         if budget > 0 and fails(c):
             best = c
         budget -= 1
-    i = len(best["ops"]) - 1
-    while i >= 0 and budget > 0:
-        ops = best["ops"][:i] + best["ops"][i + 1:]
-        c = dict(best, ops=ops)
-        if best["with"] and not with_span(c):
-            # no with-statement left: the remaining E / X are direct calls.  (Dropping the E of a with-statement
-            # whose X stays turns it into the one-liner form: norm puts an E in front.)
-            if any(o[0] == "X" for o in ops):
-                c = norm(c)
-            else:
-                c["with"] = False
+    sp = with_span(best)
+    if sp:
+        # first the whole with-statement (its E and its X): the object used plainly.  If the clause does not fail
+        # without it, the with-statement stays a real one: its E and X are never dropped one by one below.
+        c = dict(best, ops=[o for j, o in enumerate(best["ops"]) if j not in sp])
+        if not with_span(c):
+            c["with"] = False
         budget -= 1
         if fails(c):
             best = c
-            i = min(i, len(best["ops"]))
+    i = len(best["ops"]) - 1
+    while i >= 0 and budget > 0:
+        sp = with_span(best)
+        if sp and i in sp:
+            i -= 1
+            continue
+        ops = best["ops"][:i] + best["ops"][i + 1:]
+        c = dict(best, ops=ops)
+        if best["with"] and not with_span(c):
+            c["with"] = False           # (cannot happen while a span is protected; a case without span has only direct calls)
+        budget -= 1
+        if fails(c):
+            best = c
         i -= 1
     return best
 
@@ -1100,9 +1110,9 @@ def replay(ctx, obj):
     span = with_span(case)
     print("NotifierDelay(%r) [%s us] built at FPGA time %d%s" % (
         case_P(case), case["n"], res["t0"],
-        "" if not span else (", used as `with NotifierDelay(..) as d:` (ops 1..%d are the block)" % span[1] if span[0] == 0 else
-                             ", built first (ops 0..%d run before), then `with d:` entered at op %d (ops %d..%d are the block)"
-                             % (span[0] - 1, span[0], span[0] + 1, span[1]))))
+        "" if not span else (", used as `with NotifierDelay(..) as d:` (the block: the ops after 0 and before %d)" % span[1] if span[0] == 0 else
+                             ", built first (ops 0..%d run before), then `with d:` entered at op %d (the block: the ops after %d and before %d)"
+                             % (span[0] - 1, span[0], span[0], span[1]))))
     print("constructor: %s   after it: time, alarm, cleanNotifier calls = %s" % (res["ctor"], res["snap0"]))
     for o, s in zip(case["ops"], res["snaps"]):
         print("  %-10s -> time %d  alarm %s  released %d" % (" ".join(str(x) for x in o), s[0], s[1], s[2]))
